@@ -628,6 +628,16 @@ fn fam_convert(ctx: &Ctx) {
                 let e = Out::v(&resize(a, $t));
                 chk!(cs, concat!("Uint::resize<", $t, ">"), &e, Out::v(&w(&ua.resize::<$t>())));
                 chk!(cs, concat!("From<&Uint<4>> for Uint<", $t, ">"), &e, Out::v(&w(&Uint::<$t>::from(&ua))));
+                // the signed twin: widening sign-extends, narrowing truncates (two's complement)
+                cs.group();
+                let mut se = resize(a, $t);
+                if $t > 4 && a[3] >> 63 == 1 {
+                    for k in 4..$t {
+                        se[k] = u64::MAX;
+                    }
+                }
+                chk!(cs, concat!("Int<4>::resize<", $t, ">"), &Out::v(&se), Out::v(&w(ua.as_int().resize::<$t>().as_uint())));
+                chk!(cs, concat!("From<&Int<4>> for Int<", $t, ">"), &Out::v(&se), Out::v(&w(Int::<$t>::from(&ua.as_int()).as_uint())));
             }};
         }
         rs!(1);
